@@ -84,3 +84,32 @@ contract(
         1: Loop(index="k2", inv={"end": "end == k2", "suffix-equal": "all(T(eq(seq_a[i], seq_b[i - len(seq_a) + len(seq_b)])) for i in range(len(seq_a) - k2, len(seq_a)))"}),
     },
 )
+
+from pyvc.specs import x9_groupby_runs
+
+contract(
+    "inline_snapshot._align.add_x",
+    params={"track": "Text"},
+    returns="Text",
+    uses=["cnt", "gsum"],
+    requires={"letters": "all_in(track, 'mid')"},
+    ensures={
+        "letters [C11,C02,C18]": "all_in(result, 'midx')",
+        # x stands for one deletion and one insertion: consumption of both sequences is unchanged
+        "consumes-old [C11,C02,C18]": "cnt(result, 'mxd') == cnt(track, 'md')",
+        "consumes-new [C11,C02,C18]": "cnt(result, 'mxi') == cnt(track, 'mi')",
+    },
+    extern_patterns={"[(c, len(list(v))) for (c, v) in groupby(_)]": x9_groupby_runs},
+    ghost={"locals": {"result": "Text"}},
+    loops={
+        0: Loop(
+            inv={
+                "i-range": "0 <= i and i <= len(groups)",
+                "letters": "all_in(result, 'midx')",
+                "old-sum": "cnt(result, 'mxd') == gsum(groups, 'md', i)",
+                "new-sum": "cnt(result, 'mxi') == gsum(groups, 'mi', i)",
+            },
+            decreases="len(groups) - i",
+        ),
+    },
+)
